@@ -96,6 +96,10 @@ impl StringNumber {
         self.significand.len() + self.scale
     }
 
+    pub fn has_point(&self) -> bool {
+        self.point >= 0
+    }
+
     pub fn is_zero(&self) -> bool {
         self.significand.len() == 0
     }
